@@ -15,6 +15,7 @@ import (
 	"net/url"
 	"os"
 	"path/filepath"
+	"regexp"
 	"sort"
 	"strconv"
 	"strings"
@@ -211,7 +212,10 @@ type baseForm struct {
 }
 
 func genBase(rng *PRNG) baseForm {
-	switch rng.Intn(13) {
+	switch rng.Intn(14) {
+	case 13:
+		// the root as an explicit override of a server URL that has a path
+		return baseForm{servers: []any{map[string]any{"url": "https://demo.example.com/api/v1"}}, flag: "/", eff: ""}
 	case 10:
 		// one server variable used twice, the second time in the path
 		return baseForm{servers: []any{map[string]any{"url": "https://{tenant}.example.com:{port}/{tenant}/{version}", "variables": map[string]any{
@@ -366,6 +370,29 @@ func genRouteSpec(rng *PRNG, name string, secMode bool, paramMode bool) routeSpe
 						rs.Params[t] = append(rs.Params[t], paramDef{Loc: pp["in"].(string), Name: pp["name"].(string), Tag: t2.tag})
 					}
 				}
+				// ... and a parameter of the same NAME in the other location: that is another parameter,
+				// the path-item level one stays in force
+				if len(piParams) > 0 && rng.Chance(1, 3) {
+					if pp, ok := piParams[len(piParams)-1].(map[string]any); ok && pp["in"] != nil && pp["in"] != "path" {
+						other := "query"
+						if pp["in"] == "query" {
+							other = "header"
+						}
+						nm := pp["name"].(string)
+						okName := regexp.MustCompile(`^[A-Za-z][A-Za-z0-9-]*$`).MatchString(nm)
+						dup := false
+						for _, op := range opParams {
+							if m, ok := op.(map[string]any); ok && m["in"] == other && strings.EqualFold(fmt.Sprint(m["name"]), nm) {
+								dup = true
+							}
+						}
+						if okName && !dup && !opUsed[other+":"+strings.ToLower(nm)] {
+							t3 := Pick(rng, qhTypes)
+							opParams = append(opParams, map[string]any{"in": other, "name": nm, "schema": t3.schema})
+							rs.Params[t] = append(rs.Params[t], paramDef{Loc: other, Name: nm, Tag: t3.tag})
+						}
+					}
+				}
 			}
 			if len(opParams) > 0 {
 				op["parameters"] = opParams
@@ -401,7 +428,10 @@ func genRouteSpec(rng *PRNG, name string, secMode bool, paramMode bool) routeSpe
 	} else {
 		rs.SpecName = "openapi.json"
 	}
-	if rng.Chance(1, 5) {
+	if rng.Chance(1, 5) || (bf.flag == "/" && rng.Bool()) {
+		rs.Gen.ViaCLI = true
+	}
+	if !rs.Gen.ViaCLI && rng.Chance(1, 5) {
 		// directory mode with a spec file name of its own: the handler name, when given, is still the
 		// name the spec is served under; the file name on disk is only where the spec is read from
 		rs.Gen.DirSpecName = "api.json"
@@ -547,7 +577,7 @@ func facetRoute(args []string) error {
 	stats := map[string]int{}
 	for i, rs := range specs {
 		r := results[i]
-		inv, _ := json.Marshal(map[string]any{"basepath": rs.Gen.BasePath, "spec_handler_name": rs.Gen.SpecHandler, "dir_mode_spec_file_name": rs.Gen.DirSpecName, "cors": rs.Gen.Cors, "donotedit": rs.Gen.DoNotEdit, "client": rs.Gen.Client})
+		inv, _ := json.Marshal(map[string]any{"via_command_line": rs.Gen.ViaCLI, "basepath": rs.Gen.BasePath, "spec_handler_name": rs.Gen.SpecHandler, "dir_mode_spec_file_name": rs.Gen.DirSpecName, "cors": rs.Gen.Cors, "donotedit": rs.Gen.DoNotEdit, "client": rs.Gen.Client})
 		fmt.Fprintf(gf, "%s\t%s\t%s\t%s\t%s\t%s\n", r.Name, r.Outcome, hexs(firstLine(r.Detail)), hexs(brokenOrFmt(r)), hexs(string(rs.Gen.Spec)), hexs(string(inv)))
 		if r.Outcome != "ok" || r.Broken != "" {
 			stats["spec_not_driven"]++
@@ -842,7 +872,8 @@ func genRequestPaths(rng *PRNG, rs routeSpec, maxDepth, randomDeep int) []string
 		rel = append(rel, sb.String())
 	}
 	// template-directed requests: instantiate each template with values (so deep templates are hit)
-	vals := []string{"a", "z", "7", "-3", "true", "", "2147483648", "9223372036854775808", "x y", " 42", "7 ", " true", "1.5 ", "\tz", " ", "2024-01-02T03:04:05Z\n"}
+	vals := []string{"a", "z", "7", "-3", "true", "", "2147483648", "9223372036854775808", "x y", " 42", "7 ", " true", "1.5 ", "\tz", " ", "2024-01-02T03:04:05Z\n",
+		"010", "-010", "09", "0x1F", "0b11", "0o17", "1_000", "+5"}
 	for _, t := range rs.Templates {
 		for i := 0; i < 6; i++ {
 			segs := strings.Split(t, "/")[1:]
